@@ -33,6 +33,9 @@ type c11Case struct {
 	ClientMax int          `json:"server_max"` // the server's max handshake version (the client, always updated first, supports 0..2)
 	LatMs     int          `json:"lat_ms"`
 	Actions   []sessAction `json:"actions"`
+	// CancelDialCtx: the context given to Client.Dial is cancelled as soon as
+	// Dial has returned.
+	CancelDialCtx bool `json:"cancel_dial_ctx,omitempty"`
 }
 
 type c11Outcome struct {
@@ -211,6 +214,18 @@ func runC11(t *testing.T, c *c11Case, known func(string) bool) (out c11Outcome) 
 		var closeBoth func()
 		// dialOnce: one Dial + client handshake against whatever the accept
 		// loop hands out; returns true if a secured pair is up.
+		// The dial context only governs the dial (net.Dialer / grpc
+		// WithContextDialer convention; grpc cancels it once the transport is
+		// up): with CancelDialCtx it is cancelled as soon as Dial returns.
+		dialCtx := func(cl *mailbox.Client) (net.Conn, error) {
+			if !c.CancelDialCtx {
+				return cl.Dial(context.Background(), "")
+			}
+			ctx, cancel := context.WithCancel(context.Background())
+			conn, err := cl.Dial(ctx, "")
+			cancel()
+			return conn, err
+		}
 		dialOnce := func(offsetMs int, early bool) bool {
 			type dres struct {
 				conn net.Conn
@@ -220,7 +235,7 @@ func runC11(t *testing.T, c *c11Case, known func(string) bool) (out c11Outcome) 
 			if early && alive() {
 				prevDone := cur.done
 				go func() {
-					conn, err := cli.Dial(context.Background(), "")
+					conn, err := dialCtx(cli)
 					if err == nil {
 						select {
 						case <-prevDone:
@@ -244,7 +259,7 @@ func runC11(t *testing.T, c *c11Case, known func(string) bool) (out c11Outcome) 
 			} else {
 				go func() {
 					time.Sleep(ms(offsetMs))
-					conn, err := cli.Dial(context.Background(), "")
+					conn, err := dialCtx(cli)
 					dc <- dres{conn, err}
 				}()
 			}
@@ -595,6 +610,7 @@ func genC11(t *rapid.T) *c11Case {
 	c := &c11Case{Seed: rapid.Uint64().Draw(t, "seed")}
 	c.ClientMax = rapid.SampledFrom([]int{2, 2, 2, 1, 0}).Draw(t, "client_max")
 	c.LatMs = rapid.SampledFrom([]int{0, 1, 50}).Draw(t, "lat")
+	c.CancelDialCtx = rapid.Bool().Draw(t, "cancel_dial_ctx")
 	c.Actions = []sessAction{{Op: "connect", Arg: rapid.SampledFrom([]int{0, 0, 1, 500, 3000}).Draw(t, "first_offset")}}
 	ag := rapid.Custom(func(t *rapid.T) sessAction {
 		op := rapid.SampledFrom([]string{"connect", "connect", "transfer", "transfer", "close_client", "close_server", "wait", "intruder", "connect_early"}).Draw(t, "op")
